@@ -188,6 +188,8 @@ def run(run: common.Run):
                 mean = st['Mean']
                 for key in ('r2', 'rmse', 'rrmse'):
                     exp = sum(row[key] for row in rows) / nb
+                    if len(run.__dict__.setdefault('_means', [])) < 600:
+                        run._means.append((sub, key, [row[key] for row in rows], mean[key]))
                     if not (abs(mean[key] - exp) <= 1e-9 * max(1.0, abs(exp)) or (math.isnan(exp) and math.isnan(mean[key]))):
                         run.fail(sub, f'"Mean" {key} = {mean[key]} is not the band average {exp}', signature=dict(kind='mean-row'))
                 if mean['n'] != int(sum(row['n'] for row in rows) / nb):
@@ -257,7 +259,45 @@ def run(run: common.Run):
         near_identical_leg(run, tmp)
         undefined_band_leg(run, tmp)
         big_count_leg(run, tmp)
+    check_means(run)
     cli_json(run, tmp)
+
+
+def mean_line(vals):
+    """request for the model's Mean entry of the band values `vals` (nan = undefined); None when a value is infinite"""
+    from fractions import Fraction
+    toks = []
+    for v in vals:
+        if math.isnan(v):
+            toks.append('_')
+        elif math.isinf(v):
+            return None
+        else:
+            toks.append(str(Fraction(float(v))))
+    return 'meanrow ' + ' '.join(toks)
+
+
+def check_means(run):
+    """the "Mean" entries collected during the run against the model's meanRow (Model/Stats.lean): undefined iff a band is"""
+    from fractions import Fraction
+    items = [(c, k, m, mean_line(v)) for c, k, v, m in getattr(run, '_means', [])]
+    items = [it for it in items if it[3] is not None]
+    if not items:
+        return
+    reps = common.model_batch([it[3] for it in items])
+    if reps is None:
+        run.model_available = False
+        return
+    for (case, key, mean, line), rep in zip(items, reps):
+        run.lines_compared += 1
+        if rep.strip() == '_':
+            ok = math.isnan(mean)
+        else:
+            exp = float(Fraction(rep.strip()))
+            ok = (not math.isnan(mean)) and abs(mean - exp) <= 1e-9 * max(1.0, abs(exp))
+        run.hist['Mean entries compared with the model: ' + ('undefined' if rep.strip() == '_' else 'defined')] += 1
+        if not ok:
+            run.disagree(dict(case, statistic=key), line[:300], rep, repr(mean), what='"Mean" entry')
 
 
 def near_identical_leg(run, tmp):
@@ -360,6 +400,7 @@ def undefined_band_leg(run, tmp):
             mean = st['Mean']
             for key in ('r2', 'rmse', 'rrmse'):
                 exp = sum(row[key] for row in rows) / len(rows)
+                run.__dict__.setdefault('_means', []).append((case, key, [row[key] for row in rows], mean[key]))
                 same = (math.isnan(exp) and math.isnan(mean[key])) or exp == mean[key] or abs(mean[key] - exp) <= 1e-9 * max(1.0, abs(exp))
                 if not same:
                     run.fail(case, f'"Mean" {key} = {mean[key]!r} is not the band average {exp!r} of {[row[key] for row in rows]}',
